@@ -145,3 +145,28 @@ func GenNestedAnnot(idx int, withService bool) *ir.Request {
 	}
 	return &ir.Request{Files: []*ir.File{f}, Generate: []string{f.Name}}
 }
+
+// GenFeaturePairs is a FIXED schema in which every per-file helper decision (which packages a codec
+// file imports, which helper functions it defines) depends on MORE THAN ONE annotated message: two
+// messages with different bytes encodings (hex first, a base64 variant last; and the reverse, nested),
+// two with different timestamp formats, signed and unsigned repeated NUMBER-encoded 64-bit fields.
+func GenFeaturePairs(idx int) *ir.Request {
+	pkg := "pairs.v1"
+	P := "." + pkg + "."
+	f := &ir.File{Name: fmt.Sprintf("pairs%d/types.proto", idx), Package: pkg, GoPackage: "example.com/gen/pairs/v1;pairsv1"}
+	f.Messages = []*ir.Message{
+		{Name: "HexFirst", Fields: []*ir.Field{{Name: "digest", Number: 1, Kind: "bytes", Ann: ir.Ann{BytesEnc: "HEX"}}}},
+		{Name: "UrlLast", Fields: []*ir.Field{{Name: "token", Number: 1, Kind: "bytes", Ann: ir.Ann{BytesEnc: "BASE64URL"}}},
+			Nested: []*ir.Message{{Name: "Raw", Fields: []*ir.Field{{Name: "blob", Number: 1, Kind: "bytes", Ann: ir.Ann{BytesEnc: "BASE64_RAW"}}}}}},
+		{Name: "SecondsFirst", Fields: []*ir.Field{{Name: "at", Number: 1, Kind: "message", TypeName: tsType, Ann: ir.Ann{TsFormat: "UNIX_SECONDS"}}}},
+		{Name: "DateLast", Fields: []*ir.Field{{Name: "on", Number: 1, Kind: "message", TypeName: tsType, Ann: ir.Ann{TsFormat: "DATE"}}}},
+		{Name: "SignedList", Fields: []*ir.Field{{Name: "deltas", Number: 1, Kind: "sint64", Card: "repeated", Ann: ir.Ann{Int64Enc: "NUMBER"}}}},
+		{Name: "UnsignedList", Fields: []*ir.Field{{Name: "sizes", Number: 1, Kind: "uint64", Card: "repeated", Ann: ir.Ann{Int64Enc: "NUMBER"}},
+			{Name: "hashes", Number: 2, Kind: "fixed64", Card: "repeated", Ann: ir.Ann{Int64Enc: "NUMBER"}}}},
+		{Name: "Req", Fields: []*ir.Field{{Name: "q", Number: 1, Kind: "string"}}},
+	}
+	f.Services = []*ir.Service{{Name: "Pairs", BasePath: "/pairs", Methods: []*ir.Method{
+		{Name: "Hex", Input: P + "Req", Output: P + "HexFirst", Config: &ir.HTTPConfig{Path: "/hex", Method: "POST"}},
+		{Name: "Url", Input: P + "Req", Output: P + "UrlLast", Config: &ir.HTTPConfig{Path: "/url", Method: "POST"}}}}}
+	return &ir.Request{Files: []*ir.File{f}, Generate: []string{f.Name}}
+}
